@@ -64,8 +64,9 @@ OutClause(m, ev) ==
   \* mitmproxy never resets a stream on its own: a reset is the relayed reset of this step and goes to the other side
   ELSE IF ev.kind = "reset" /\ (m.ckind # "reset" \/ ev.conn = x[1]) THEN <<"C30.reset_misrouted">>
   ELSE IF ev.kind = "reset" /\ ev.code # m.ccode THEN <<"C30.reset_code_changed">>
-  \* the reset of a stream must reach the paired stream as a reset, not as a clean end of stream
-  ELSE IF ev.kind = "end" /\ \E r \in m.rst : r[1] # ev.conn /\ ev.sid \in PairOf(m2, r[1], r[2])
+  \* the reset of a stream must reach the paired stream as a reset, not as a clean end of stream (once a connection
+  \* has been closed a pending reset may be folded into the close: not judged)
+  ELSE IF ev.kind = "end" /\ ~m.closed /\ \E r \in m.rst : r[1] # ev.conn /\ ev.sid \in PairOf(m2, r[1], r[2])
        THEN <<"C30.reset_relayed_as_fin", IF m.ckind = "reset" THEN "same_step" ELSE "later_step">>
   ELSE IF x = ANY THEN (IF tgt \notin m.known THEN <<"C30.signal_to_unknown_stream", ev.kind>> ELSE <<>>)
   ELSE IF ev.conn = x[1] THEN
